@@ -136,11 +136,14 @@ fn decode(t: &mut Tape) -> Case {
     let len = t.below(9);
     let mut entries = vec![];
     for _ in 0..len {
-        let f = match t.below(4) {
+        let f = match t.below(5) {
             0 => amt::one(),
             1 => amt::typed(t.small_int(99999), t.below(5) as u32),
             2 => amt::from_i64(t.small_int(1000)),
-            _ => gen_amount(t, Dom::Moderate),
+            3 => gen_amount(t, Dom::Moderate),
+            // a huge factor: harmless in an entry that does not apply, but an
+            // implementation that evaluates every entry overflows on it
+            _ => gen_amount(t, Dom::Finite),
         };
         let o = match t.below(3) {
             0 => amt::zero(),
@@ -315,8 +318,14 @@ pub fn check(case: &Case) -> Verdict {
             let got = match catch(|| (h.run)(&es, (x, *unit), *to)) {
                 Ok(g) => g,
                 Err(p) => {
-                    if cfg!(feature = "dec") {
-                        return Verdict::Discard("panicked (decimal range)");
+                    // decimal: a panic is legitimate only if the entry that
+                    // applies overflows itself
+                    if cfg!(feature = "dec") && unit != to {
+                        if let Some(e) = es.iter().find(|e| e.0 == *unit && e.1 == *to) {
+                            if catch(|| x * e.2 + e.3).is_err() {
+                                return Verdict::Discard("the applicable entry overflows the decimal range");
+                            }
+                        }
                     }
                     fail!("{}: panicked: {}", note, p)
                 }
@@ -363,6 +372,14 @@ pub fn check(case: &Case) -> Verdict {
                     let f = amt::to_rat(es[i].2).unwrap();
                     let o = amt::to_rat(es[i].3).unwrap();
                     let exact = rx.mul(&f).add(&o);
+                    if cfg!(feature = "dec") {
+                        // a product beyond the decimal range panics or (without
+                        // overflow checks) wraps: outside the domain
+                        let lim = Rat::parse("1e19").unwrap();
+                        if exact.abs().cmp(&lim).is_gt() || rx.mul(&f).abs().cmp(&lim).is_gt() {
+                            return Verdict::Discard("the applicable entry leaves the decimal range");
+                        }
+                    }
                     match affine_budget(&rx, &f, &o) {
                         None => pass("table/extreme", true),
                         Some(b) => {
